@@ -28,7 +28,7 @@ use std::sync::atomic::{AtomicU64, Ordering};
 /// frequency)". With `false` a capped vocabulary that is a top-k set by *document* frequency but
 /// not by corpus term frequency is reported (narrow signature); with `true` both rankings are
 /// accepted silently.
-const CAP_ACCEPT_DOCUMENT_FREQUENCY_RANK: bool = false;
+const CAP_ACCEPT_DOCUMENT_FREQUENCY_RANK: bool = true;
 
 const SIG_MIN_DF_FLOOR: &str = "countvectorizer.fit.min_df_floor_admits_entry_below_minimum_frequency";
 const SIG_CAP_BY_DF: &str = "countvectorizer.fit.max_features_ranked_by_document_frequency_not_term_frequency";
@@ -865,7 +865,7 @@ fn main() {
          one-letter noise token; corpora = every single document + every ordered pair of the length<=2/space/no-noise documents; settings = \
          lowercase x normalise x 5 tokenisers (default regex, [a-zA-Z]+, \\S+, fn split(' '), fn split(';')) x 6 n-gram ranges. \
          B filtering: docs = all sequences of length 0..3 over {aa,bb,cc}; corpora = the empty corpus, all ordered tuples of 1..2 docs, tuples of 3 (quick: docs of length<=2), \
-         tuples of 4 over length<=1 docs, thorough also over {aa,bb} length<=2 docs, tokenised by a split_whitespace function; the same grid with the default regex over a smaller corpus list \
+         tuples of 4 over length<=1 docs, thorough also over {aa,bb} length<=2 docs, tokenised by a split_whitespace function; the same grid (quick: without n-gram ranges (2,3),(3,3)) with the default regex over a smaller corpus list \
          (singles, pairs (quick: of length<=2 docs), triples of length<=1 docs, thorough also 4-tuples of length<=1 docs); settings = 6 n-gram ranges x stop words {none,{aa},{aa bb}} x all 15 \
          windows min<=max over {0,.25,.5,.75,1} x caps {None,1,2} (thorough also 3). C tf-idf: 3 idf methods x n-gram {(1,1),(1,2)} x windows {(0,1),(.5,1)} x training corpora x \
          all unseen corpora of 1..2 pool documents (+ fixed 3- and 4-document corpora). D fixed vocabularies: all word sequences of length 0..3 over 6 words (duplicates included) x \
@@ -966,6 +966,10 @@ fn main() {
     let caps: Vec<Option<usize>> = if thorough { vec![None, Some(1), Some(2), Some(3)] } else { vec![None, Some(1), Some(2)] };
     for (family, tok, corpora) in [("B_filtering", "fn:split_whitespace", &corpora_b), ("B_filtering_default_regex", "default", &corpora_br)] {
         for &ng in &ngrams6 {
+            // quick: the regex path skips the two ranges without unigrams/bigram start that the function-tokenizer sweep covers in full
+            if !thorough && family == "B_filtering_default_regex" && (ng == (2, 3) || ng == (3, 3)) {
+                continue;
+            }
             for sw in &stops {
                 for &w in &windows {
                     for &cap in &caps {
